@@ -8,8 +8,10 @@ namespace CimbaModel.Mempool
 
 /-- "Expand the area list if necessary", repaired code -/
 theorem growList_ok {cfg : Cfg} {s : MP} (hcls : 0 < cfg.cls) (hp : s.chunkList = s.blkLive)
-    (hl : s.blkLive ≠ none) (hcap : s.listLen ≤ s.blkData.size) (hlt : s.listCnt < s.listLen) :
-    ∃ s', growList true 8 cfg s = .ok s' ∧ s'.chunkList = s'.blkLive ∧ s'.blkLive ≠ none ∧
+    (hl : s.blkLive ≠ none) (hcap : s.listLen ≤ s.blkData.size) (hlt : s.listCnt < s.listLen)
+    (hfr : ∀ h, s.blkLive = some h → h < s.blkNext) :
+    ∃ s', growList true 8 cfg s = .ok s' ∧ (∀ h, s'.blkLive = some h → h < s'.blkNext) ∧
+      s'.chunkList = s'.blkLive ∧ s'.blkLive ≠ none ∧
       s'.listLen ≤ s'.blkData.size ∧ s'.listCnt = s.listCnt + 1 ∧ s'.listCnt < s'.listLen ∧
       (∀ i, i < s.listLen → s'.blkData.getD i none = s.blkData.getD i none) ∧
       s'.mem = s.mem ∧ s'.nextObj = s.nextObj ∧ s'.cookie = s.cookie ∧ s'.objSz = s.objSz ∧
@@ -21,12 +23,12 @@ theorem growList_ok {cfg : Cfg} {s : MP} (hcls : 0 < cfg.cls) (hp : s.chunkList 
                      blkLive := some s.blkNext, chunkList := some s.blkNext,
                      blkData := Array.ofFn (n := (s.listLen + cfg.cls) * 8 / 8) fun i => s.blkData.getD i.val none },
       by simp [growList, hg, reallocList, hcl, hlive], ?_⟩
-    refine ⟨rfl, by simp, by simp, rfl, by simp; omega, ?_, rfl, rfl, rfl, rfl, rfl, rfl⟩
+    refine ⟨fun h e => by simp only [Option.some.injEq] at e; show h < s.blkNext + 1; omega, rfl, by simp, by simp, rfl, by simp; omega, ?_, rfl, rfl, rfl, rfl, rfl, rfl⟩
     intro i hi
     have : i < s.listLen + cfg.cls := by omega
     simp [Array.getD_eq_getD_getElem?, this]
   · refine ⟨{ s with listCnt := s.listCnt + 1 }, by simp [growList, hg], ?_⟩
-    exact ⟨hp, hl, hcap, rfl, by simp; omega, fun _ _ => rfl, rfl, rfl, rfl, rfl, rfl, rfl⟩
+    exact ⟨hfr, hp, hl, hcap, rfl, by simp; omega, fun _ _ => rfl, rfl, rfl, rfl, rfl, rfl, rfl⟩
 
 /-- new chunk, recorded in the list, objects threaded -/
 theorem addChunk_ok {cfg : Cfg} {s : MP} (hcfg : CfgOK cfg) (hp : s.chunkList = s.blkLive)
@@ -39,7 +41,8 @@ theorem addChunk_ok {cfg : Cfg} {s : MP} (hcfg : CfgOK cfg) (hp : s.chunkList = 
       Chain s'.mem s'.nextObj (objsFrom s.mem.size 0 (s.objSz / 8) s.incrNum) ∧
       s'.blkData = s.blkData.setIfInBounds s.mem.size (some s.mem.size) ∧
       s'.chunkList = s.chunkList ∧ s'.blkLive = s.blkLive ∧ s'.listLen = s.listLen ∧ s'.listCnt = s.listCnt ∧
-      s'.cookie = s.cookie ∧ s'.objSz = s.objSz ∧ s'.incrNum = s.incrNum ∧ s'.incrSz = s.incrSz := by
+      s'.cookie = s.cookie ∧ s'.objSz = s.objSz ∧ s'.incrNum = s.incrNum ∧ s'.incrSz = s.incrSz ∧
+      s'.blkNext = s.blkNext := by
   obtain ⟨h0, hlive⟩ := Option.ne_none_iff_exists'.mp hl
   have hcl : s.chunkList = some h0 := by rw [hp, hlive]
   have hu : 0 < s.objSz / 8 := by omega
@@ -81,7 +84,7 @@ theorem addChunk_ok {cfg : Cfg} {s : MP} (hcfg : CfgOK cfg) (hp : s.chunkList = 
     simp only [addChunk, alignedAlloc, hassert, and_self, if_true, listWrite, hcl, hlive, hidx]
     simp only [e1] at hidx ⊢
     simp [ht, m1]
-  · refine ⟨by simp [hsize, hm1size], ?_, by simp [hrow, hm1row], ?_, hchain, rfl, rfl, rfl, rfl, rfl, rfl, rfl, rfl, rfl⟩
+  · refine ⟨by simp [hsize, hm1size], ?_, by simp [hrow, hm1row], ?_, hchain, rfl, rfl, rfl, rfl, rfl, rfl, rfl, rfl, rfl, rfl⟩
     · intro c hc; simp [hrow, hm1rowOld c hc]
     · intro c w hc
       show m'.get c w = s.mem.get c w
@@ -93,9 +96,9 @@ theorem expand_inv {cfg : Cfg} {s : MP} {live : List Addr} (hcfg : CfgOK cfg) (h
       Inv cfg s' (objsFrom s.mem.size 0 (s.objSz / 8) s.incrNum) live ∧
       (∀ c w, c < s.mem.size → s'.mem.get c w = s.mem.get c w) ∧ s'.objSz = s.objSz := by
   have hnone : s.nextObj = none := h.chain
-  obtain ⟨s1, hg, g1, g2, g3, g4, g5, g6, g7, g8, g9, g10, g11, g12⟩ :=
-    growList_ok hcfg.clsPos h.lptr h.lsome h.lcap h.cntLt
-  obtain ⟨s2, ha, a1, a2, a3, a4, a5, a6, a7, a8, a9, a10, a11, a12, a13, a14⟩ :=
+  obtain ⟨s1, hg, g0, g1, g2, g3, g4, g5, g6, g7, g8, g9, g10, g11, g12⟩ :=
+    growList_ok hcfg.clsPos h.lptr h.lsome h.lcap h.cntLt h.lfresh
+  obtain ⟨s2, ha, a1, a2, a3, a4, a5, a6, a7, a8, a9, a10, a11, a12, a13, a14, a15⟩ :=
     addChunk_ok (s := s1) hcfg g1 g2 g3 (by rw [g4, g7, h.cntMem]) g5 (by rw [g10]; exact h.sz8)
       (by rw [g10]; exact h.szPos) (by rw [g11]; exact h.numPos) (by rw [g10, g11, g12]; exact h.fits)
       (by rw [g12]; exact h.isz)
@@ -114,6 +117,7 @@ theorem expand_inv {cfg : Cfg} {s : MP} {live : List Addr} (hcfg : CfgOK cfg) (h
       isz := by rw [a14, g12]; exact h.isz
       lptr := by rw [a7, a8]; exact g1
       lsome := by rw [a8]; exact g2
+      lfresh := by rw [a8, a15]; exact g0
       lcap := by rw [a9, a6]; simpa using g3
       cntLt := by rw [a10, a9]; exact g5
       cntMem := by rw [a10, g4, a1, h.cntMem]
@@ -158,5 +162,53 @@ theorem expand_inv {cfg : Cfg} {s : MP} {live : List Addr} (hcfg : CfgOK cfg) (h
           · right
             have := (h.part a).mpr ⟨by omega, k, hk, hw⟩
             simpa using this }
+
+/-! ### the code as shipped, and the two half repairs -/
+
+theorem Inv.incrBig {cfg : Cfg} {s : MP} {fl live : List Addr} (hcfg : CfgOK cfg) (h : Inv cfg s fl live) :
+    8 < s.incrSz := by
+  have hpos : 0 < s.incrSz := by
+    have : 1 * s.objSz ≤ s.incrNum * s.objSz := Nat.mul_le_mul_right _ h.numPos
+    have := h.fits; have := h.szPos
+    omega
+  have := Nat.le_of_dvd hpos (Nat.dvd_of_mod_eq_zero h.isz)
+  have := hcfg.pageBig
+  omega
+
+/-- Dropping realloc's result (`cmi_realloc(mp->chunk_list, …);` as a statement): the first expansion at which the
+    chunk list has to grow writes through the dead pointer.  Holds whatever byte size is passed. -/
+theorem expandWith_dropResult_faults {cfg : Cfg} {s : MP} {live : List Addr} (eb : Nat) (hcfg : CfgOK cfg)
+    (h : Inv cfg s [] live) (hg : s.listCnt + 1 = s.listLen) :
+    expandWith false eb cfg s = .error .listStale := by
+  have hnone : s.nextObj = none := h.chain
+  obtain ⟨h0, hlive⟩ := Option.ne_none_iff_exists'.mp h.lsome
+  have hcl : s.chunkList = some h0 := by rw [h.lptr, hlive]
+  have hne : ¬ s.blkNext = h0 := by have := h.lfresh h0 hlive; omega
+  have hassert : 8 < cfg.page ∧ cfg.page % 8 = 0 ∧ isPow2 cfg.page = true ∧ 8 < s.incrSz ∧ s.incrSz % cfg.page = 0 :=
+    ⟨hcfg.pageBig, hcfg.page8, hcfg.pagePow, h.incrBig hcfg, h.isz⟩
+  simp [expandWith, expandEnter, hnone, h.cookie, growList, hg, reallocList, hcl, hlive, addChunk, alignedAlloc,
+    hassert, listWrite, hne]
+
+/-- Using the result but passing the element count as the byte size: the block shrinks to `count / 8` entries and
+    the store of the new chunk's address lands outside it. -/
+theorem expandWith_undersized_faults {cfg : Cfg} {s : MP} {live : List Addr} (hcfg : CfgOK cfg)
+    (h : Inv cfg s [] live) (hg : s.listCnt + 1 = s.listLen) (hsmall : (s.listLen + cfg.cls) / 8 ≤ s.listCnt) :
+    expandWith true 1 cfg s = .error (.listOob s.listCnt) := by
+  have hnone : s.nextObj = none := h.chain
+  obtain ⟨h0, hlive⟩ := Option.ne_none_iff_exists'.mp h.lsome
+  have hcl : s.chunkList = some h0 := by rw [h.lptr, hlive]
+  have hassert : 8 < cfg.page ∧ cfg.page % 8 = 0 ∧ isPow2 cfg.page = true ∧ 8 < s.incrSz ∧ s.incrSz % cfg.page = 0 :=
+    ⟨hcfg.pageBig, hcfg.page8, hcfg.pagePow, h.incrBig hcfg, h.isz⟩
+  have hoob : ¬ s.listLen - 1 < (s.listLen + cfg.cls) / 8 := by omega
+  have e : s.listLen - 1 = s.listCnt := by omega
+  simp [expandWith, expandEnter, hnone, h.cookie, growList, hg, reallocList, hcl, hlive, addChunk, alignedAlloc,
+    hassert, listWrite, hoob]
+  exact e
+
+/-- `cmi_mempool_expand` as shipped faults at the expansion that makes `chunk_list_cnt` reach `chunk_list_len`
+    (the 64th chunk with `CHUNK_LIST_SIZE = 64`) -/
+theorem expandDefective_faults_at_growth {cfg : Cfg} {s : MP} {live : List Addr} (hcfg : CfgOK cfg)
+    (h : Inv cfg s [] live) (hg : s.listCnt + 1 = s.listLen) : expandDefective cfg s = .error .listStale :=
+  expandWith_dropResult_faults 1 hcfg h hg
 
 end CimbaModel.Mempool
